@@ -826,7 +826,13 @@ fn build(rng: &mut Prng, items: &[Item], defect: Defect, redeemers_as_map: bool,
                     _ => PseudoScript::PlutusV3Script(PScript::<3>(Bytes::from(bytes.clone()))),
                 };
                 utxos.push(ResolvedInput { input: i.clone(), output: coin_out(address(0x60 | net, &rand_hash::<28>(rng)), None, Some(CborWrap(sr))) });
-                ref_inputs.push(i);
+                // the output carrying the script is a reference input — or, one time in three, a key-locked
+                // output SPENT by the same transaction (its reference script is available all the same)
+                if rng.chance(1, 3) {
+                    inputs.push(i);
+                } else {
+                    ref_inputs.push(i);
+                }
             } else {
                 wit[(lang - 1) as usize].push(bytes.clone());
             }
